@@ -166,6 +166,8 @@ def run(items, stats, monitors=True, max_level=9000, batch=400, timeout=900, max
                 stats.programs.add(hash(it.src))
                 for f in it.meta.get('features', ()):
                     stats.features[f] += 1
+                if monitors and it.meta.get('guard_labels'):
+                    stats.features['stack_guards_tracked_by_GuardCovers'] += it.meta['guard_labels']
                 if len(stats.samples) < 6 and it.result['cls'] == 'agree':
                     stats.samples.append({'source': it.src[:600], 'args': it.args, 'w': it.w, 's': it.s,
                                           'unchecked': it.unchecked, 'machine_steps': it.result['level'],
